@@ -906,7 +906,13 @@ func (c *Context) Ln(d, x *Decimal) (Condition, error) {
 		var eps Decimal
 		eps.Coeff.Set(bigOne)
 		eps.Exponent = -int32(p)
-		for n := 1; ; n++ {
+		// Each further term is smaller than its predecessor by more than the
+		// factor (x/(x+2))^2. When that is below 10^-(p+2) the first term is
+		// the sum to working precision already, and forming the powers for a
+		// very small x would only run into the exponent limits
+		// (Ln(1+1E-33322) failed with "exponent out of range").
+		negligible := 2*(int64(tmp2.Exponent)+tmp2.NumDigits()-1) < -int64(p)-2
+		for n := 1; !negligible; n++ {
 
 			// tmp3 *= (x / (x+2))^2
 			ed.Mul(&tmp3, &tmp3, &tmp2)
